@@ -481,6 +481,11 @@ def lean_lterm(e):
 
 STRIP = ("contour_points = contour_points[np.logical_not((np.isclose(np.roll(contour_points[:, 1], 1), 0)) & "
          "(np.isclose(np.roll(contour_points[:, 1], -1), 0)))]")
+STRIP2 = [
+    "inner = np.flatnonzero(np.logical_not(np.isclose(contour_points[:, 1], 0)))",
+    "if inner.size:\n    contour_points = contour_points[inner[0] - 1:inner[-1] + 2]",
+    "contour_points = contour_points.copy()",
+]
 ENDS = ("if not np.isclose(contour_points[0, 1], 0) or not np.isclose(contour_points[-1, 1], 0):\n"
         "    raise ValueError('first and last element of contour_points should have y coordinate equal to 0')")
 INTERP1D = ("self._local_depth = scipy.interpolate.interp1d(contour_points[:, 0], contour_points[:, 1], "
@@ -496,6 +501,7 @@ def extract_spline(tree):
     state = "validate"
     tr = _LTr()
     seen = set()
+    strip2 = 0
     for st in body:
         if _same(st, "contour_points = np.asarray(contour_points, dtype='float64')"):
             seen.add("asarray")
@@ -510,9 +516,19 @@ def extract_spline(tree):
             seen.add("ends")
             continue
         if _same(st, STRIP):
-            if "centre" in out:
+            if "centre" in out or "strip" in seen:
                 raise Gap("spline: stripping after centring")
             seen.add("strip")
+            out["strip"] = "bothNeighbours"
+            continue
+        k2 = next((k for k, src in enumerate(STRIP2) if _dump(st) == _dump(ast.parse(src).body[0])), None)
+        if k2 is not None:
+            if "centre" in out or "strip" in seen or k2 != strip2:
+                raise Gap("spline: stripping order")
+            strip2 += 1
+            if strip2 == len(STRIP2):
+                seen.add("strip")
+                out["strip"] = "faceRuns"
             continue
         if isinstance(st, ast.AugAssign) and isinstance(st.op, ast.Sub) and _col_of(st.target, "contour_points") == 0:
             if "centre" in out or "strip" not in seen:
@@ -738,11 +754,13 @@ def emit(ctx):
         info["spline"] = sp
         for k in ("centre", "half_width", "width", "usable_default", "depth"):
             L.append(f"def spline_{k} : LTerm := {lean_lterm(sp[k])}")
+        L.append(f"def spline_strip : StripKind := .{sp['strip']}")
         L.append("def spline_shape_ok : Bool := true")
     except Gap as ex:
         gap(f"{SP}: {ex}")
         for k in ("centre", "half_width", "width", "usable_default", "depth"):
             L.append(f"def spline_{k} : LTerm := (.nat 0)")
+        L.append("def spline_strip : StripKind := .bothNeighbours")
         L.append("def spline_shape_ok : Bool := false")
     L.append("")
     L.append("/-- closed formulas by name (for the Float evaluation driver) -/")
